@@ -352,6 +352,8 @@ func initAllowed(p *types.Package) bool {
 func (r *Run) initPackages(th *Thread, pkg *ssa.Package) {
 	init := pkg.Func("init")
 	if init != nil {
+		r.inInit = true
 		th.callSSA(nil, token.NoPos, init, nil, nil)
+		r.inInit = false
 	}
 }
